@@ -16,6 +16,7 @@ EXPLANATION = ("ProguardCache::parse as a decision structure equals the referenc
                "are part of the reference. The buffer is only touched through watto's length/alignment-checked helpers (their own checks "
                "are census sites in C12). Prefix clause (paper step): the writer emits exactly string_bytes string bytes and nothing after, "
                "every earlier section is length-checked, so every strict prefix fails one check; 'or else answers identically' is vacuous.")
+EXPLANATION = EXPLANATION + ' The error payload (expected/found) is part of the compared outcome, and `==` on CacheErrorKind is the derived field-by-field comparison.'
 RULE_TEXT = "one instance for the canonical path set of parse (each path compared under all completions), plus access-discipline instances"
 TRUSTED = ["sa/models.py", "watto 0.1.0 Pod::ref_from_prefix / slice_from_prefix / align_to semantics (bodies are in the C12 census)"]
 
